@@ -21,6 +21,7 @@ func init() {
 			ruleGlobals(c, "R6")
 			rulePoolReleaseOnce(c, "R7")
 			ruleGroupOptionOrder(c, "R8")
+			ruleReadersWriteNothing(c, "R9")
 		},
 	})
 }
